@@ -26,7 +26,7 @@
    adds a depth to the base number, the model has no width parameter; the pinned tree's
    width-dependent comparator is kept as [validate_commit_prefix w] (C19_width_prefix_refuted). *)
 From Coq Require Import List NArith ZArith Bool Permutation.
-From C19 Require Import Model ProofsVoterSet ProofsChain ProofsCommit ProofsIff ProofsJust ProofsOrder ProofsNoAmb ProofsMain ProofsShift ProofsBlock ProofsPayload.
+From C19 Require Import Model ProofsVoterSet ProofsChain ProofsCommit ProofsIff ProofsJust ProofsOrder ProofsNoAmb ProofsMain ProofsShift ProofsBlock ProofsPayload ProofsWidth.
 From Common Require Import Bytes.
 From GrandpaPayload Require Import Payload.
 Import ListNotations.
@@ -358,3 +358,55 @@ Theorem C19_payload_determines_round_and_set : forall hb nw round setid p st h n
   st = stage_precommit /\ h = hb (p_hash p) /\ n = p_num p /\ r = round /\ i = setid.
 Proof. exact precommit_payload_determines. Qed.
 Print Assumptions C19_payload_determines_round_and_set.
+
+(* Width independence as a theorem about WRAPPED arithmetic.  [validate_commit_w w] /
+   [verify_finalizes_w w]: the code at number width w, the GHOST number computed as base + depth
+   modulo 2^w.  For block numbers consistent with the supplied headers that fit w bits the w-bit
+   code computes exactly the unbounded model (the sum never wraps: the GHOST is an ancestor of a
+   precommit target), hence numbers that fit 32 bits get the same verdict at 32 and 64 bits, and
+   every theorem above about [verify_finalizes] is a theorem about both widths. *)
+Theorem C19_width_free : forall w vs hs num fhash fnum thash tnum ps,
+  (forall x, In x hs -> num (h_hash x) = num (h_parent x) + 1) ->
+  (forall p, In p ps -> p_num p = num (p_hash p)) ->
+  (forall p, In p ps -> p_num p < 2 ^ w) ->
+  validate_commit_w w vs hs thash tnum ps = validate_commit vs hs thash tnum ps
+  /\ verify_finalizes_w w vs hs fhash fnum thash tnum ps = verify_finalizes vs hs fhash fnum thash tnum ps.
+Proof.
+  intros w vs hs num fhash fnum thash tnum ps H1 H2 H3. split.
+  - exact (validate_commit_w_eq vs hs num H1 w thash tnum ps H2 H3).
+  - exact (verify_finalizes_w_eq vs hs num H1 w fhash fnum thash tnum ps H2 H3).
+Qed.
+Print Assumptions C19_width_free.
+
+Theorem C19_width_32_64 : forall vs hs num fhash fnum thash tnum ps,
+  (forall x, In x hs -> num (h_hash x) = num (h_parent x) + 1) ->
+  (forall p, In p ps -> p_num p = num (p_hash p)) ->
+  (forall p, In p ps -> p_num p < 2 ^ 32) ->
+  verify_finalizes_w 32 vs hs fhash fnum thash tnum ps = verify_finalizes_w 64 vs hs fhash fnum thash tnum ps.
+Proof.
+  intros vs hs num fhash fnum thash tnum ps H1 H2 H3.
+  rewrite (verify_finalizes_w_eq vs hs num H1 32 fhash fnum thash tnum ps H2 H3).
+  symmetry. apply (verify_finalizes_w_eq vs hs num H1 64 fhash fnum thash tnum ps H2).
+  intros p Hp. apply N.lt_trans with (2 ^ 32); [now apply H3 | reflexivity].
+Qed.
+Print Assumptions C19_width_32_64.
+
+(* the consistency hypothesis cannot be dropped in this model: with a child that claims its
+   parent's number 2^32 - 1 the sum wraps at 32 bits only *)
+Theorem C19_width_needs_consistency : exists vs hs thash tnum ps,
+  (forall p, In p ps -> p_num p < 2 ^ 32)
+  /\ validate_commit_w 32 vs hs thash tnum ps <> validate_commit_w 64 vs hs thash tnum ps.
+Proof.
+  exists ww_vs, [mkHdr 1 0 0], 1, 0, ww_ps. destruct width_wrap_witness as [H1 [H2 H3]].
+  split; [exact H3|]. rewrite H1, H2. discriminate.
+Qed.
+Print Assumptions C19_width_needs_consistency.
+
+(* non-vacuity of C19_width_free: the accepted witness moved to the top of the 32-bit range
+   (numbers 2^32 - 2 and 2^32 - 1) is accepted at width 32 *)
+Example C19_width_nonvacuous :
+  let k := 4294967288 in
+  verify_finalizes_w 32 w_vs (map (sh_hdr k) [mkHdr 2 1 7]) 1 (6 + k) 1 (6 + k) (map (sh_pc k) w_pcs) = JOk
+  /\ forallb (fun p => p_num p <? 2 ^ 32) (map (sh_pc k) w_pcs) = true
+  /\ existsb (fun p => p_num p =? 2 ^ 32 - 1) (map (sh_pc k) w_pcs) = true.
+Proof. vm_compute. repeat split; reflexivity. Qed.
